@@ -85,6 +85,7 @@ pub fn random_benign_knobs(r: &mut Rng) -> Knobs {
         k.faults.insert("tcp.delay".into(), 0.7);
     }
     k.faults.insert("order.permute".into(), *r.pick(&[0.0, 0.5, 1.0]));
+    k.faults.insert("order.any_answer".into(), *r.pick(&[0.0, 0.5, 1.0]));
     k.faults.insert("tcp.segment".into(), *r.pick(&[0.0, 0.3]));
     k.faults.insert("tcp.short_read".into(), *r.pick(&[0.0, 0.3]));
     k.faults.insert("tcp.partial_write".into(), *r.pick(&[0.0, 0.2]));
